@@ -65,8 +65,9 @@ def physical(res, spec, obs, phases, vtol=1e-6):
                 res.v(("C03.amplify", k, *tag), "%s Vin/nominal %r Vout %r" % (name, ref, vout))
 
 
-def run_one(res, spec, vtol, itol, maxiter, tag):
-    s = build(spec)
+def run_one(res, spec, vtol, itol, maxiter, tag, holes=None):
+    from ..sysmodel import build_holes
+    s = build(spec) if not holes else build_holes(spec, analyse=(holes == "analysed"))
     cnt = [0]
     orig = s._fwd_prop
 
@@ -182,7 +183,7 @@ def check_case(case):
                 outs.add(run_one(res, spec, vt, it, mi, "settings"))
         res.nontrivial = 1 if len(outs) >= 2 else 0
     elif fam == "over":
-        o = run_one(res, spec, None, None, None, "over")
+        o = run_one(res, spec, None, None, None, "over", holes=case.get("holes"))
         res.nontrivial = 1 if o in ("RuntimeError", "Unstable") else 0
     elif fam == "live":
         v, i, io, conv, maxdrop = refsolve(spec)
@@ -246,6 +247,9 @@ def gen_cases(tier):
                 for micro in (2e-6, 2e-5):
                     yield dict(fam="spread", depth=depth, heavy=heavy, micro=micro, pol=1, pal=pal)
         # B overload at every position
+        for n in (2, 3):      # overloads in systems reached through an edit history (index re-use), with an analysis in the middle
+            for f in over.iter_forests(n):
+                yield dict(fam="over", f=f, pal=pal, pol=1, srs=0.0, holes="analysed")
         for n in (1, 2, 3):   # an overloaded mux / switch that carries a phase list and is ACTIVE: the guard must still fire
             for f in over.iter_forests(n):
                 sp = spec_from_forest(f, pal, 1, 0.0, extra=heavy_letters(pal))
